@@ -381,6 +381,56 @@ fn name_reuse_scenario() -> ScenFn {
     })
 }
 
+/// DeleteSubscription arrives in the MIDDLE of a push round: several messages were pulled for this round and are
+/// POSTed 5 ms apart to an endpoint that takes seconds to answer.  No POST may start after DeleteSubscription returned.
+fn delete_mid_round_scenario() -> ScenFn {
+    scen!([] |cx| {
+        cx.set_push_menu(vec![PushAnswer::Delay(3_000, 200)]);
+        let a = cx.api.clone();
+        must!(cx, "setup:create-topic", { let a = a.clone(); async move { a.create_topic(T0).await } });
+        must!(cx, "setup:create-push-sub", { let a = a.clone(); async move { a.create_sub(S0, T0, 10, Some(ENDPOINT)).await } });
+        let n = 6usize;
+        let msgs: Vec<Msg> = (0..n).map(|i| (format!("message-{}", i).into_bytes(), vec![])).collect();
+        must!(cx, "setup:publish", { let a = a.clone(); async move { a.publish(T0, msgs).await } });
+        // the push loop's next round begins at ~1001 ms; the deletion is issued `off` ms into it
+        let offs = [0u64, 1, 3, 6, 8, 11, 13, 16, 21, 40];
+        let off = offs[cx.choose("delete-ms-into-the-round", offs.len())];
+        {
+            let was = cx.freeze(true);
+            let mut q = cx.advance_ms(1_001).await;
+            for _ in 0..off {
+                if q.is_ok() {
+                    q = cx.advance_ms(1).await;
+                }
+            }
+            cx.freeze(was);
+            tryv!(q);
+        }
+        let before = cx.push_log().len();
+        must!(cx, "client:delete-sub", { let a = a.clone(); async move { a.delete_sub(S0).await } });
+        let deleted_at = cx.now_ms();
+        let deleted_step = cx.step();
+        {
+            let was = cx.freeze(true);
+            let mut q = Ok(());
+            for _ in 0..220 {
+                if q.is_ok() {
+                    q = cx.advance_ms(10).await;
+                }
+            }
+            cx.freeze(was);
+            tryv!(q);
+        }
+        let log = cx.push_log();
+        for att in &log {
+            if att.step > deleted_step {
+                return ScenarioOut::viol("push/after-delete", format!("delete-mid-round: DeleteSubscription returned at {} ms ({} ms into the round, {} POSTs had started); a POST started at {} ms", deleted_at, off, before, att.at_ms));
+            }
+        }
+        ScenarioOut::ok(format!("off={} posts-before={}", off, before.min(9)))
+    })
+}
+
 fn status_sweep() -> Unit {
     let f: ScenFn = scen!(|cx| {
         let status = 100 + cx.choose("status", 500) as u16;
@@ -434,6 +484,7 @@ pub fn units(thorough: bool) -> Vec<Unit> {
         explore_unit("fault/long-deadline", "1 message on a push subscription with a 60 s ack deadline; the endpoint answers after 5 / 20 / 40 / 55 s (200 or 500) or at once; 130 rounds: an answer inside the 60 s deadline counts, whatever its delay", Bounds::new(0), cfg.clone(), scenario_y("long-deadline", 1, 130, vec![Delay(40_000, 200), Delay(55_000, 200), Delay(20_000, 500), Delay(5_000, 200), Status(200)], None, true, false, 60)),
         explore_unit("fault/interference", "2 messages failing in the first round; between the rounds a rejected duplicate CreateSubscription of the push subscription (with / without endpoint), an unrelated create, a get: the retries go on regardless", Bounds::new(0), cfg.clone(), scenario_x("interference", 2, 3, vec![Status(500), Status(200)], None, true, true)),
         status_sweep(),
+        explore_unit("fault/delete-mid-round", "6 messages, an endpoint that answers after 3 s, DeleteSubscription issued 0-40 ms into the push round (the POSTs of one round start 5 ms apart): no POST starts after DeleteSubscription returned", Bounds::new(if thorough { 1 } else { 0 }), cfg.clone(), delete_mid_round_scenario()),
         explore_unit("sched/name-reuse-during-push-round", "the push subscription is deleted, re-created under the same name pull-only or with another endpoint, and a message is published, all while the push loop starts its round (task orders / preemption points / stalls explored): that message is never POSTed to the old endpoint; a pull-only subscription is never POSTed to", Bounds::new(if thorough { 3 } else { 2 }), cfg.clone(), name_reuse_scenario()),
         explore_unit("sched/delete‖recreate-push", "DeleteSubscription of a push subscription racing with 1-2 CreateSubscription of the same name (started after 0-15 scheduler steps), task orders / select indices / preemption points explored: afterwards a subscription that exists and reports a push endpoint is in the push registry and a new message is POSTed within 2.5 s", Bounds::new(if thorough { 3 } else { 2 }), cfg.clone(), recreate_race_scenario()),
     ];
